@@ -96,6 +96,8 @@ def cvode_passes(tier):
 def classify(msg):
     if "second Solve" in msg:
         return "second-solve"
+    if "integrated" in msg and "never failed" in msg:
+        return "wrong-interval-without-any-failure"
     if "integrated" in msg:
         return "wrong-interval"
     if "returned SUCCESS although" in msg:
